@@ -369,6 +369,7 @@ def main():
     vlib.proof_phase_extra(ctx, 'Properties_C13_source')
     # the array bounds the encoder prints, as translated from generator.hpp (Gen/GenEnc.v): they ARE e_H .. e_T of Codec.encode
     vlib.proof_phase_extra(ctx, 'Properties_C13_enc_source')
+    vlib.proof_phase_extra(ctx, 'Properties_C13_wr_source')      # the loops of the encoder that write the cells (translators/encwrite.py)
     K = consts()
     mdl, drv = base.build_binaries(ctx)
     if ctx.replay:
